@@ -260,6 +260,9 @@ func (r *Report) Write(path string) {
 	if r.Violations == nil {
 		r.Violations = []Violation{}
 	}
+	if r.Samples == nil {
+		r.Samples = []any{}
+	}
 	b, err := json.MarshalIndent(r, "", " ")
 	if err != nil {
 		panic(err)
